@@ -1163,9 +1163,28 @@ def shared_state_findings(ctx):
             elif isinstance(x, ast.AugAssign) and owner_of(x.target, fi) is not None:
                 own, what = owner_of(x.target, fi), 'updated in place'
             if own is not None and not memo_idiom(fi, own):
+                # objects put into the table are shared objects: the classes they are instances of
+                vals = []
+                if isinstance(x, ast.Call):
+                    vals = list(x.args)
+                elif isinstance(x, ast.Subscript):
+                    for st_ in ast.walk(fi.node):
+                        if isinstance(st_, ast.Assign) and any(t_ is x for t_ in st_.targets):
+                            vals = [st_.value]
+                cnames = {c.name: c.qual for c in prog.classes.values()}
+                held = set()
+                for v_ in vals:
+                    for y in ast.walk(v_):
+                        if isinstance(y, ast.Call) and isinstance(y.func, ast.Name):
+                            if y.func.id in cnames:
+                                held.add(cnames[y.func.id])
+                            elif y.func.id == 'cls' and fi.cls is not None:
+                                held.add(fi.cls.qual)
+                        if isinstance(y, ast.Call) and isinstance(y.func, ast.Attribute) and y.func.attr == '__new__' and fi.cls is not None:
+                            held.add(fi.cls.qual)
                 out.append((('%s.%s' % (own[1], own[2])), ctx.site(fi, x), fi,
                             '%s-level container `%s.%s` (shared by every object) is written at run time in %s: %s' % (
-                                own[0], own[1].split('.')[-1], own[2], fi.qual, what)))
+                                own[0], own[1].split('.')[-1], own[2], fi.qual, what), held))
             # an attribute assigned on a class object
             if isinstance(x, ast.Attribute) and isinstance(x.ctx, ast.Store) and fi.name not in ('__init_subclass__', '__set_name__'):
                 v = x.value
@@ -1219,19 +1238,65 @@ def shared_state_findings(ctx):
 
 def no_shared_mutable_state(ctx, rule='SS'):
     """obligation of every property that speaks about "each IKE_SA / message / SA / connection": see shared_state_findings.  A finding counts
-    for this property when the function that writes the shared state, or the class that owns it, is among the functions / classes this
-    property's rules analysed (ctx.functions) - the state of what the property is about has become shared."""
+    for this property when one of the functions its rules analysed (ctx.functions) reads or writes the shared state itself, or uses it
+    through its accessor (names the property, the method, or - for state kept by a constructor - the class that does): what those
+    functions compute then depends on state that has become shared."""
     fs = shared_state_findings(ctx)
-    touched = set(ctx.functions)
-    touched_classes = {q.rsplit('.', 1)[0] for q in touched}
+    prog = ctx.prog
     n = 0
-    for owner, site, fi, msg in fs:
-        owner_cls = owner.rsplit('.', 1)[0]
-        relevant = (fi is not None and (fi.qual in touched or (fi.cls is not None and fi.cls.qual in touched_classes))) \
-            or owner_cls in touched_classes or any(q.startswith(owner_cls + '.') for q in touched)
-        if relevant:
+    names_of = {}
+    if fs:
+        for f in prog.all_functions():
+            if isinstance(f.node, (ast.FunctionDef, ast.AsyncFunctionDef)):
+                names_of.setdefault(f.qual, set()).update({x.attr for x in ast.walk(f.node) if isinstance(x, ast.Attribute)} |
+                                                         {x.id for x in ast.walk(f.node) if isinstance(x, ast.Name)})
+        # second definitions under one name (property setters) belong to the same qualified name
+        for m in prog.modules.values():
+            for c in ast.walk(m.tree):
+                if isinstance(c, ast.ClassDef):
+                    for b in c.body:
+                        if isinstance(b, ast.FunctionDef):
+                            q = next((k.qual for k in prog.classes.values() if k.node is c), m.name + '.' + c.name) + '.' + b.name
+                            names_of.setdefault(q, set()).update({x.attr for x in ast.walk(b) if isinstance(x, ast.Attribute)} |
+                                                                 {x.id for x in ast.walk(b) if isinstance(x, ast.Name)})
+    for rec in fs:
+        owner, site, fi, msg = rec[:4]
+        held = rec[4] if len(rec) > 4 else set()
+        short = owner.rsplit('.', 1)[-1].split('(')[0]
+        level0 = {q for q, names in names_of.items() if short in names}
+        if fi is not None:
+            level0.add(fi.qual)
+        access = set()
+        for q in level0:
+            nm = q.rsplit('.', 1)[-1]
+            access.add(q.rsplit('.', 2)[-2] if nm in ('__new__', '__init__') and q.count('.') >= 2 else nm)
+        level1 = {q for q, names in names_of.items() if names & access}
+        # state kept by a constructor or handed out by a factory of the class (a flyweight table) is the state of every instance: all
+        # methods of that class and of its subclasses work on objects that may be shared
+        for q in list(level0):
+            f0 = prog.functions.get(q)
+            if f0 is None or f0.cls is None:
+                continue
+            hands_out = f0.name in ('__new__', '__init__') or any(
+                isinstance(r, ast.Return) and r.value is not None and any(
+                    (isinstance(y, ast.Attribute) and y.attr == short) or (isinstance(y, ast.Name) and y.id == short) for y in ast.walk(r.value))
+                for r in ast.walk(f0.node))
+            if not hands_out:
+                # ... or stores what it looked up / created in the table and returns that local
+                hands_out = bool(getattr(f0, 'is_classmethod', False) or f0.is_staticmethod) and any(isinstance(r, ast.Return) for r in ast.walk(f0.node))
+            if hands_out:
+                for k in prog.classes.values():
+                    if f0.cls in k.mro():
+                        level1 |= {m_.qual for m_ in k.methods.values()}
+        # ... and the methods of the classes whose instances are kept in the table
+        for k in prog.classes.values():
+            if any(h in [b.qual for b in k.mro()] for h in held):
+                level1 |= {m_.qual for m_ in k.methods.values()}
+        hit = (level0 | level1) & set(ctx.functions)
+        if hit:
             n += 1
-            ctx.bad(rule, (rule, 'shared-state', owner), msg, site, {})
+            ctx.bad(rule, (rule, 'shared-state', owner), msg, site, {'used by analysed functions': sorted(hit)[:6]})
     if not n:
         ctx.ok(rule, 'no class-level / module-level container, class attribute, mutable default or memoised mutable result is written at run time '
-               'by the %d functions this property analyses or in their classes (%d such site(s) in the whole program)' % (len(touched), len(fs)))
+               'by, or behind an accessor used by, the %d functions this property analyses (%d such site(s) in the whole program)' % (
+                   len(ctx.functions), len(fs)))
